@@ -87,6 +87,10 @@ def check_pcacd(case, ctx):
     m = fk.states[0]
     if fk.forked_steps:
         ctx.label("met-knife-edge")
+    if p["window_size"] >= 50:
+        ctx.label("ph-threshold>0")
+    if round(p["sample_period"] * p["window_size"]) > 100:
+        ctx.label("step-capped-at-100")
     ctx.label(f"metric={p['divergence_metric']}", f"scaling={p['online_scaling']}", f"num_pcs={min(m.num_pcs or 0, 3)}", f"drifts={min(ndrift, 2)}")
     if ndrift >= 1 and "score-in-second-epoch" in ctx.labels:
         ctx.label("nontrivial")
@@ -94,7 +98,9 @@ def check_pcacd(case, ctx):
 
 @st.composite
 def pca_params(draw):
-    w = draw(st.sampled_from([8, 10, 12, 16, 20, 25, 30, 40]))
+    # windows >= 50 give the inner Page-Hinkley test a positive threshold (round(0.01 * window));
+    # window * sample_period > 100 reaches the documented cap of the check period
+    w = draw(st.sampled_from([8, 10, 12, 16, 20, 25, 30, 40, 50, 60, 100, 150, 250]))
     sp = draw(st.sampled_from([0.05, 0.1, 0.2, 0.5]))
     if round(sp * w) < 1:
         sp = 0.5
@@ -121,13 +127,13 @@ def strat_pcacd(tier):
             mix = draw(st.lists(st.lists(st.integers(-2, 2), min_size=d, max_size=d), min_size=d, max_size=d))
             z = draw(st.lists(st.lists(cell, min_size=d, max_size=d), min_size=w, max_size=w))
             R = [[sum(mix[a][b] * zz[b] for b in range(d)) / 8 + zz[a] / 4 for a in range(d)] for zz in z]
-            reps = draw(st.integers(3, 5))
+            reps = draw(st.integers(3, 5 if w <= 60 else 3))
             items = R * reps
             repeat_len = len(items)
             tail = draw(st.integers(0, w))
             items = items + [[v + 6 for v in r] for r in R[:tail]]
         else:
-            n = draw(st.integers(3 * w, 6 * w))
+            n = draw(st.integers(3 * w, (6 if w <= 60 else 4) * w))
             nseg = draw(st.integers(2, 5))
             bounds = sorted(draw(st.lists(st.integers(w, n - 1), min_size=nseg - 1, max_size=nseg - 1)))
             segs = []
@@ -155,7 +161,7 @@ PROPERTY = {
     "level": "exploration",
     "rule": (
         "Hypothesis streams of 3-6 window lengths with 2-4 features: 2-5 segments with their own level, mixing matrix (correlation) and "
-        "scale, or the reference window repeated 3-5 times (then a shifted tail) x window_size 8..40 x ev_threshold {.5,.9,.99,.999} x delta x "
+        "scale, or the reference window repeated 3-5 times (then a shifted tail) x window_size 8..250 (>= 50: positive inner threshold; 250 x 0.5: check period capped at 100) x ev_threshold {.5,.9,.99,.999} x delta x "
         "metric {kl, intersection} x sample_period (step >= 1) x online_scaling on/off. After every update drift_state, samples_since_reset, "
         "num_pcs and the score history (_change_score, when present; 1e-9) are compared with the reference model (own windows, schedule, "
         "per-component supports and divergences, own Page-Hinkley; the inner test forks at its knife-edge). For repeated-reference streams "
